@@ -38,6 +38,7 @@ func runC06(p *Prog, r *Report) {
 	indexGetTotalRule(p, r, "C06.R12")
 	declaredSignatureRule(p, r, "C06.R13")
 	originPathOrderRule(p, r, "C06.R14")
+	roleOrderRule(p, r, "C06.R16")
 	r.Rule("C06.R15", "context arguments of custom functions are recognised with the regex in effect where the function is named: the ParseOpts handed to the loader for map … | FUNC and default FUNC carry the method's ArgContextRegex, those for extend the converter's (shared with C12.R3) — otherwise a context parameter is classified as the source and receives the conversion source", 3)
 	parseOptsContextRule(p, r)
 	calleeErrRule(p, r, "C06.R8", "the error of Index.Get (`a function for these types exists but its context is not available`) is never dropped: at every call no success return is reachable while it may be non-nil — generation fails instead of silently using another rule", 2, func(f *types.Func) bool {
@@ -445,8 +446,10 @@ func c06R3(p *Prog, r *Report) {
 }
 
 // c06R4: localConfig name agreement.
-func c06R4(p *Prog, r *Report) {
-	r.Rule("C06.R4", "in package pkgload every method.Parse(obj, opts, g.localConfig(pkg, name)) looks up the local settings under the same name value that produced obj (scope.Lookup(name) / GetOneRaw(pkg, name)): a function's own `goverter:context` lines are applied to that function", 2)
+func c06R4(p *Prog, r *Report) { localConfigNameRule(p, r, "C06.R4") }
+
+func localConfigNameRule(p *Prog, r *Report, id string) {
+	r.Rule(id, "in package pkgload every method.Parse(obj, opts, g.localConfig(pkg, name)) looks up the local settings under the same name value that produced obj (scope.Lookup(name) / GetOneRaw(pkg, name)): a function's own `goverter:context` lines are applied to that function", 2)
 	for _, fi := range p.Funcs {
 		if relPkg(fi.Pkg.PkgPath) != "pkgload" {
 			continue
